@@ -181,6 +181,10 @@ def nextIrreducible (fuel : Nat) (a : Nat) : Option Nat :=
 /-- ≙ finfields.py:502 `find_irreducible(2, d)` -/
 def findIrreducible (d fuel : Nat) : Option Nat := nextIrreducible fuel (2 ^ d - 1)
 
+/-- ≙ finfields.py:509 `xGF(modulus)` for p = 2: `(order, ext_deg)` or `ValueError` -/
+def xGF (m : Nat) : Except Err (Nat × Nat) :=
+  if isIrreducible m then .ok (2 ^ (bitLen m - 1), bitLen m - 1) else .error .value
+
 /-- ≙ gfpx.py:879 `_from_int` -/
 def fromInt (a : Int) : Nat := a.natAbs
 
